@@ -623,6 +623,8 @@ class AgreementMonitor(Monitor):
         w.on_hook('force_process_state', self.on_forced)
         w.listeners.append(self.on_event)
         self.blind_forced = {}  # namespec -> [(vt, sender nick, hosts not seen active)]
+        self.forced_by = {}     # namespec -> nicks that forced a stopped-like state for it
+        self.admitted_inc = {}  # (observer nick, inc, peer nick) -> incarnation of the peer at its last CHECKING
 
     def on_forced(self, inst, process, identifier, event_time, forced_state, reason):
         # a state forced by an instance that does not see (all) the Supervisors where the process truly runs
@@ -638,6 +640,8 @@ class AgreementMonitor(Monitor):
                  if other.running_truth().get(process.namespec) in RUNNING_STATES and other.nick != inst.nick
                  and (view.get(other.identifier, 'STOPPED') not in ('CHECKED', 'RUNNING')
                       or other.identifier not in listed)]
+        if int(forced_state) not in RUNNING_STATES:
+            self.forced_by.setdefault(process.namespec, set()).add(inst.nick)
         if blind and int(forced_state) not in RUNNING_STATES:
             self.blind_forced.setdefault(process.namespec, []).append((vt(w), inst.nick, blind))
             self.count('forced_states_without_seeing_the_host')
@@ -650,8 +654,9 @@ class AgreementMonitor(Monitor):
             process = w.instances[nick].supvisors.context.get_process(namespec)
         except KeyError:
             return ''
+        # (the copy may also have started between the emission of the forced state and its delivery)
         if process.forced_state is not None and process.forced_state not in RUNNING_STATES and \
-                process.state in RUNNING_STATES and self.blind_forced.get(namespec):
+                process.state in RUNNING_STATES and self.forced_by.get(namespec, set()) - {nick}:
             return ':state-forced-over-a-running-copy-unknown-to-the-forcer'
         return ''
 
@@ -659,6 +664,8 @@ class AgreementMonitor(Monitor):
         self.peer_view.setdefault((inst.nick, inst.inc), {})[identifier] = new_state.name
         peer = self.run.world.by_identifier.get(identifier)
         if new_state.name == 'CHECKING':
+            # the incarnation of the peer whose snapshot is going to be taken
+            self.admitted_inc[(inst.nick, inst.inc, peer)] = self.run.world.incs.get(peer, 0)
             self.snapshot_taken.discard((inst.nick, peer))
             # a fresh snapshot of that peer is going to be taken
             self.unpublished.pop((inst.nick, peer), None)
@@ -695,6 +702,14 @@ class AgreementMonitor(Monitor):
 
     def mechanism(self, observer, namespec, identifiers):
         w = self.run.world
+        oinst = w.instances.get(observer)
+        for identifier in (identifiers or list(w.by_identifier)):
+            peer = w.by_identifier.get(identifier)
+            admitted = self.admitted_inc.get((observer, oinst.inc if oinst else 0, peer))
+            if admitted is not None and peer != observer and admitted != w.incs.get(peer, 0):
+                # the observer still holds the process table of a previous incarnation of that peer: its restart has
+                # not been detected (C07 finding: TICK counter not lower after the restart)
+                return ':restart-of-the-host-not-detected'
         for identifier in (identifiers or list(w.by_identifier)):
             if namespec in self.unpublished.get((observer, w.by_identifier.get(identifier)), ()):
                 return ':event-lost-in-handshake-window'
@@ -725,7 +740,7 @@ class AgreementMonitor(Monitor):
             if not reports:
                 continue
             self.count('groups_evaluated')
-            flagged = set()
+            flagged = {}
             for nick, procs in reports.items():
                 seen_running = {i for i, s in vws[nick]['instance_states'].items() if s == 'RUNNING'}
                 for namespec, p in procs.items():
@@ -744,7 +759,7 @@ class AgreementMonitor(Monitor):
                         kind = 'missing' if missing else 'stale'
                         mech = self.mechanism(nick, namespec, listed ^ truth)
                         if mech:
-                            flagged.add(namespec)
+                            flagged[namespec] = mech
                         self.violate(f'C12/view-vs-truth:{kind}{mech}', f'{nick} lists {namespec} on '
                                      f'{sorted(w.by_identifier[i] for i in listed)} at quiescence (vt={vt(w)}) but '
                                      f'the Supervisors it sees RUNNING report it running on '
@@ -761,7 +776,7 @@ class AgreementMonitor(Monitor):
                     run_a, run_b = p['statecode'] in (10, 20, 30, 40), q['statecode'] in (10, 20, 30, 40)
                     if set(p['identifiers']) != set(q['identifiers']) or run_a != run_b or \
                             (run_a and p['statecode'] != q['statecode']):
-                        mech = ':event-lost-in-handshake-window' if namespec in flagged else \
+                        mech = flagged[namespec] if namespec in flagged else \
                             (self.mechanism(nicks[0], namespec, set(p['identifiers']) | set(q['identifiers'])) or
                              self.mechanism(other, namespec, set(p['identifiers']) | set(q['identifiers'])))
                         if not mech and set(p['identifiers']) == set(q['identifiers']):
@@ -1128,7 +1143,13 @@ class JobTerminationMonitor(Monitor):
             nick = w.by_identifier.get(info['identifier'])
             other = w.instances.get(nick)
             if info['statename'] in ('CHECKED', 'RUNNING') and other is not None and other.alive:
-                out[nick] = other.inc
+                # ... and that have admitted the sender themselves (events of a peer not yet CHECKED are dropped)
+                try:
+                    back = peek(w, nick, 'supvisors.get_instance_info', inst.identifier)[0]['statename']
+                except (Fault, IndexError):
+                    continue
+                if back in ('CHECKED', 'RUNNING'):
+                    out[nick] = other.inc
         return out
 
     def check_premature(self, inst, rec):
@@ -1141,7 +1162,14 @@ class JobTerminationMonitor(Monitor):
             return
         prog = self.run.prog_of(namespec)[1]
         truth = self.tracker.truth.get((target, namespec))
-        since = self.state_since.get((target, namespec))
+        # what matters is what the requester knows: since when it has seen the process in that phase (events may be
+        # lost or late, the process may have gone through other phases meanwhile)
+        states = (40,) if rec['state'] == 0 else (10, 30)
+        since = None
+        for t, state, _ in reversed(self.tracker.received.get((inst.nick, inst.inc, target, namespec), [])):
+            if state not in states:
+                break
+            since = t
         if since is None:
             return
         self.count('give_up_timing_checks')
